@@ -124,6 +124,12 @@ def build(ctx):
             ('LC', r'while\s*\(i < count\)\s*\{', 'while (i < count) __CPROVER_assigns(i, g_invoked, g_bad_order, g_last_mo, g_credit, g_uncredited_handover) __CPROVER_loop_invariant(i <= count && !g_bad_order && chunkSize >= 1 && g_credit == 0 && !g_uncredited_handover && (g_canceled ==> g_invoked == 0) && g_invoked >= 0 && g_invoked <= (int)i) __CPROVER_decreases(count - i) {', 1)]
     ctx.emit('TSB_scheduleBulkImpl.body.inc', r.function(TI, r'void\s+scheduleBulkImpl\s*\(\s*size_t\s+count\s*,\s*Generator&&\s+gen\s*,\s*moodycamel::ProducerToken\*\s+token\s*,[^)]*\)'), subs=bulk + opt(COMMON), must_fire=['R13', 'LC'], typemap=TM)
     ctx.emit('TSB_scheduleBulkImplPlaced.body.inc', r.function(TI, r'void\s+scheduleBulkImplPlaced\s*\(\s*size_t\s+count\s*,\s*Generator&&\s+gen\s*,[^)]*\)'), subs=bulk + opt(COMMON), must_fire=['R13', 'LC'], typemap=TM)
+    fqb = [b for b in bulk if b[0] != 'LC' and 'invokeInline' not in b[1] and 'shouldInlineBulk' not in b[1] and 'room' not in str(b[1]) and 'curWork' not in str(b[1]) and 'enqueueLimit' not in str(b[1])]
+    fqb = [(b[0], b[1], b[2], 'opt') for b in fqb] + [
+        ('R3', r'std::min\(count - i,\s*chunkSize\)', '((count - i) < chunkSize ? (count - i) : chunkSize)', 'opt'),
+        # any loop shape over i: the credit ledger must be balanced at every iteration boundary
+        ('LC', r'while\s*\(i < count\)\s*\{', 'while (i < count) __CPROVER_assigns(i, g_invoked, g_bad_order, g_last_mo, g_credit, g_uncredited_handover) __CPROVER_loop_invariant(i <= count && !g_bad_order && chunkSize >= 1 && g_credit == 0 && !g_uncredited_handover && g_invoked == 0) __CPROVER_decreases(count - i) {', 1)]
+    ctx.emit('TSB_scheduleBulkImplForceQueue_ledger.body.inc', r.function(TI, r'void\s+scheduleBulkImplForceQueue\s*\(\s*size_t\s+count\s*,\s*Generator&&\s+gen\s*,\s*moodycamel::ProducerToken\*\s+token\s*\)'), subs=fqb + opt(COMMON), must_fire=['LC', 'R17'], typemap=TM)
     ctx.emit('TSB_cancelChildren.body.inc', r.function(TI, r'void\s+cancelChildren\s*\(\s*\)'), must_fire=['R8', 'LC'],
              subs=[('R17', r'std::lock_guard<std::mutex>\s+lk\(mtx_\);', 'G_lock();   /* held to the end of the function */', 1),
                    ('R8', r'auto\*\s+node\s*=\s*head_;', 'size_t node = 0;   /* head_ */', 1),
@@ -146,6 +152,7 @@ def build(ctx):
              mk('ConcurrentTaskSet::schedulePlaced', 'CTS_schedulePlaced', replace=['PKG_body'], replay=rp),
              mk('TaskSetBase::scheduleBulkImpl', 'TSB_scheduleBulkImpl', loop_contracts=True, replay=rp),
              mk('TaskSetBase::scheduleBulkImplPlaced', 'TSB_scheduleBulkImplPlaced', loop_contracts=True, replay=rp),
+             mk('TaskSetBase::scheduleBulkImplForceQueue', 'TSB_scheduleBulkImplForceQueue', loop_contracts=True, replay=rp),
              mk('TaskSetBase::cancelChildren', 'TSB_cancelChildren', loop_contracts=True),
              mk('TaskSetBase::cancel', 'TSB_cancel', replace=['TSB_cancelChildren'], replay=rp),
              mk('TaskSetBase::TaskSetBase (parent check)', 'TSB_ctor_parent'),
